@@ -89,6 +89,8 @@ fn build_id() -> BoxedStrategy<String> {
         2 => "[a-z0-9]{0,3}[a-z][a-z0-9]{0,3}",
         2 => gens::num::u32_biased().prop_map(|n| n.to_string()),
         1 => gens::pick(&["sha", "g1a2b3c", "main", "x86", "0a", "a0", "post", "dev", "rc", "alpha"]).prop_map(String::from),
+        1 => "[a-f0-9]{40,80}".prop_map(|s| if s.bytes().all(|b| b.is_ascii_digit()) { format!("a{s}") } else { s }),
+        1 => "[1-9][0-9]{20,75}",
     ]
     .boxed()
 }
